@@ -118,6 +118,9 @@ func checkC14(sc *Scenario, res *RunResult, t *Truth) []Violation {
 	if sc.Arm == "replicas" {
 		return checkC14Replicas(sc, t)
 	}
+	if sc.Arm == "restartrace" || sc.Arm == "slowdying" {
+		return checkC14Launches(sc, t)
+	}
 	vs = append(vs, checkC14Launches(sc, t)...)
 	if len(vs) > 0 {
 		return vs
@@ -362,6 +365,15 @@ func checkC14Launches(sc *Scenario, t *Truth) []Violation {
 			continue
 		}
 		name := in.Token[:i]
+		// the new instance comes after the old one, never beside it
+		if p0 := sc.Project.Proc(name); p0 != nil && p0.Replicas <= 1 {
+			for _, o := range t.Insts {
+				if o != in && o.Kind == "simproc" && strings.HasPrefix(o.Token, name+".v") && o.AliveAt(in.ExecSeq) && o.ExecSeq < in.ExecSeq {
+					vs = append(vs, Violation{"C14", "two-instances-side-by-side", "", fmt.Sprintf("%s was launched at t=%v (pid %d, %s) while its previous command (pid %d, %s) was still alive", name, in.ExecT, in.Pid, in.Token, o.Pid, o.Token), in.ExecSeq})
+					return vs
+				}
+			}
+		}
 		force := sc.Project
 		var after *Call
 		busy := false
@@ -534,9 +546,53 @@ func checkC14Replicas(sc *Scenario, t *Truth) []Violation {
 	return vs
 }
 
+// genC14Overlap: a live update overlaps another request for the process it changes - a restart
+// that is waiting out its back-off (it must launch the configuration in force by then), or a
+// stop that is still waiting for a slow command to die (the new instance comes after the old
+// one, never beside it)
+func genC14Overlap(r *R, sc *Scenario) {
+	spec := &ProjectSpec{}
+	sc.Project = spec
+	sc.Scripts = map[string]*TokenScript{}
+	spec.Procs = append(spec.Procs, &ProcSpec{Name: "u0", Token: "u0.v0"}, &ProcSpec{Name: "u1", Token: "u1.v0"})
+	sc.Scripts["u1.*"] = &TokenScript{Launches: []simos.Script{{LifeMs: -1}}}
+	up := cloneSpec(spec)
+	up.Procs[0].Token = "u0.v1"
+	if r.P(400) {
+		up.Procs[0].Env = []string{"K=new"}
+	}
+	sc.Updates = []*ProjectSpec{up}
+	at := Pick(r, 2000, 3000)
+	if r.P(500) {
+		// restart of a running process; the update lands while the restart waits out its
+		// back-off, and the instance the update launches has ended when the restart launches
+		long := simos.Script{LifeMs: -1, TermLagMs: Pick(r, 0, 10)}
+		short := simos.Script{LifeMs: Pick(r, 100, 300), Exit: 0}
+		sc.Scripts["u0.v0"] = &TokenScript{Launches: []simos.Script{long, long}}
+		sc.Scripts["u0.v1"] = &TokenScript{Launches: []simos.Script{short, long}}
+		sc.Clients = []Client{{Name: "rs", Ops: []Op{{AtMs: at, Op: "restart", Arg: "u0"}}}, {Name: "updater", Ops: []Op{{AtMs: at + Pick(r, 200, 400, 500), Op: Pick(r, "update", "reload"), N: 0}}}}
+		sc.Arm = "restartrace"
+	} else {
+		// stop of a command that takes its time to die; the update lands while it is dying
+		slow := simos.Script{LifeMs: -1, TermLagMs: Pick(r, 1000, 2000)}
+		sc.Scripts["u0.*"] = &TokenScript{Launches: []simos.Script{slow, slow, slow}}
+		sc.Clients = []Client{{Name: "st", Ops: []Op{{AtMs: at, Op: "stop", Arg: "u0"}}}, {Name: "updater", Ops: []Op{{AtMs: at + Pick(r, 100, 300, 600), Op: Pick(r, "update", "reload"), N: 0}}}}
+		sc.Arm = "slowdying"
+	}
+	sc.Strategy = genStrategy(r)
+	sc.Strategy.StallPermille = 0
+	sc.IterMode = Pick(r, 0, 1, 2, 3)
+	sc.RunForMs = at + 6000
+	sc.QuietMs = 1000
+}
+
 func genC14(r *R, sc *Scenario, tier string) {
 	if r.P(60) {
 		genC14Replicas(r, sc)
+		return
+	}
+	if r.P(120) {
+		genC14Overlap(r, sc)
 		return
 	}
 	spec := &ProjectSpec{}
